@@ -104,6 +104,12 @@ class MonitoredStore(QueueStorage):
         if op in qw.slow_ops:
             if qw.ch.choose(2, 'slow:%s' % op, 'sched') == 1:
                 qw.world.env_wait('store-%s#%d' % (op, n))
+        if op in qw.fail_ops:
+            # the storage may fail this operation (an I/O error of the substrate): a data choice
+            if qw.ch.choose(2, 'fail:%s' % op, 'data') == 1:
+                qw.ev('store', op, qw.sid(qid), 'raised:IOError(injected)')
+                qw.store_faults += 1
+                raise IOError('injected failure of %s' % op)
         try:
             r = fn(*a)
         except BaseException as e:
@@ -200,6 +206,7 @@ class QueueWorld(object):
       store_pool / relay_pool: None or int        bounce: 'default'|'none'|'headers-only'
       bounce_queue: 'self'|'separate'             senders: {i: sender}   (e.g. '' for a null sender)
       menu: kwargs for outcome_menu               slow_ops: iterable of storage op names that may be slow
+      fail_ops: iterable of storage op names that may raise IOError (data choice)
       harness_wait: wait() announcements come from the driver (dict backend)
       max_attempts: after this many attempts of one message only final outcomes are offered
     """
@@ -210,6 +217,8 @@ class QueueWorld(object):
         self.events = []
         self.op_counter = 0
         self.slow_ops = set(cfg.get('slow_ops', ()))
+        self.fail_ops = set(cfg.get('fail_ops', ()))
+        self.store_faults = 0
         self.harness_wait = cfg.get('harness_wait', False)
         self.waiters = []
         self.transit = {}
@@ -334,7 +343,7 @@ class QueueWorld(object):
         'smtp': [{}, {'rcpt0': '251'}, {'rcpt0': '5'}, {'rcpt0': '4'}, {'mail': '4'}, {'data': '5'}, {'eod': '4'}, {'eod': '5'}, {'banner': 'disconnect'},
                  {'rcpt0': '4', 'rcpt1': '5'}, {'eod': 'disconnect'}, {'connect': 'refused'}, {'mail': 'stall'}, {'eod': 'stall'},
                  {'rcpt0': '251', 'eod': '5'}],
-        'http': ['200+250', '200', '500+451', '503', '400+550', '404', 'drop', 'refused', '200+garbage', '302', '204', '301+250'],
+        'http': ['200+250', '200', '500+451', '503', '400+550', '404', 'drop', 'refused', '200+garbage', '302', '204', '301+250', 'late'],
         'lmtp': [{}, {'rcpt0': '5'}, {'eod0': '5'}, {'eod0': '4'}, {'eod1': '4'}, {'mail': '4'}, {'eod0': '5', 'eod1': '4'}, {'banner': 'disconnect'},
                  {'rcpt0': '251', 'eod1': '4'}, {'rcpt0': '251', 'eod1': '5'}, {'rcpt0': '251'}, {'connect': 'refused'}, {'eod0': 'stall'}],
     }
